@@ -237,7 +237,7 @@ Qed.
 Lemma scan_one_ok : forall n d, ad_ok d -> ad_ok (scan_one n d).
 Proof. intros n d H. unfold scan_one. destruct (an_name n) eqn:E; [now apply ad_set_ok|exact H]. Qed.
 
-Lemma scan_ok : forall dom d, ad_ok d -> ad_ok (scan_anchors dom d).
+Lemma scan_ok : forall dom d, ad_ok d -> ad_ok (an_scan_anchors dom d).
 Proof.
   induction dom as [i v|i kvs IH|i els IH|i els IH] using node_ind'; intros d Hd;
     try (apply scan_one_ok; exact Hd).
@@ -249,13 +249,13 @@ Proof.
     inversion IH as [|? ? IHe IHrest]; subst. apply (IHr IHrest). apply IHe. exact Hd.
 Qed.
 
-Lemma scan_names : forall dom k n, ad_get k (scan_anchors dom []) = Some n -> an_name n = Some k.
+Lemma scan_names : forall dom k n, ad_get k (an_scan_anchors dom []) = Some n -> an_name n = Some k.
 Proof. intros dom k n. apply ad_get_ok. apply scan_ok. constructor. Qed.
 
 (* ---------- the loop invariant ---------- *)
 (* anchors sit on Scalars only: what scan_for_anchors records are leaves *)
 Definition scalar_anchors (d : node) : Prop :=
-  forall k n, ad_get k (scan_anchors d []) = Some n -> is_leaf n = true.
+  forall k n, ad_get k (an_scan_anchors d []) = Some n -> is_leaf n = true.
 
 Lemma all_read_iff : forall a x d,
   all_read a x d <-> (forall n, In n (places d) -> hit a n = true -> n = x).
@@ -291,8 +291,8 @@ Proof. reflexivity. Qed.
 Section Loop.
 Variable cfg : mconfig.
 Variables l0 r0 : node.
-Let lanc := scan_anchors l0 [].
-Let ranc := scan_anchors r0 [].
+Let lanc := an_scan_anchors l0 [].
+Let ranc := an_scan_anchors r0 [].
 Hypothesis Hsl : scalar_anchors l0.
 Hypothesis Hsr : scalar_anchors r0.
 
@@ -371,7 +371,7 @@ End Loop.
 Theorem resolve_left_reads_left : forall cfg l r l' r' a la ra,
   anchor_merge_mode cfg = Ok KLeft ->
   keys_plain l = true -> keys_plain r = true -> scalar_anchors l -> scalar_anchors r ->
-  ad_get a (scan_anchors l []) = Some la -> ad_get a (scan_anchors r []) = Some ra ->
+  ad_get a (an_scan_anchors l []) = Some la -> ad_get a (an_scan_anchors r []) = Some ra ->
   anchors_match la ra = false ->
   resolve_conflicts cfg l r = Ok (l', r') ->
   all_read a la r'.
@@ -385,7 +385,7 @@ Qed.
 Theorem resolve_right_reads_right : forall cfg l r l' r' a la ra,
   anchor_merge_mode cfg = Ok KRight ->
   keys_plain l = true -> scalar_anchors r ->
-  ad_get a (scan_anchors l []) = Some la -> ad_get a (scan_anchors r []) = Some ra ->
+  ad_get a (an_scan_anchors l []) = Some la -> ad_get a (an_scan_anchors r []) = Some ra ->
   resolve_conflicts cfg l r = Ok (l', r') ->
   all_read a ra l'.
 Proof.
